@@ -72,7 +72,19 @@ func (c *Concat) ValidateInputs(inputs []tensor.Tensor) ([]tensor.Tensor, error)
 		c.inputTypeConstraints[i] = ops.AllTypes
 	}
 
-	return ops.ValidateInputs(c, inputs)
+	inputs, err := ops.ValidateInputs(c, inputs)
+	if err != nil {
+		return nil, err
+	}
+
+	// All inputs must have the same element type: the tensors cannot be concatenated otherwise.
+	for _, input := range inputs[1:] {
+		if input != nil && inputs[0] != nil && input.Dtype() != inputs[0].Dtype() {
+			return nil, ops.ErrInvalidTensor("DType of the inputs does not match", c)
+		}
+	}
+
+	return inputs, nil
 }
 
 // GetMinInputs returns the minimum number of input tensors this operator expects.
